@@ -137,7 +137,7 @@ func spaces(quick bool) []*Space {
 			odd(commit("rel3", 3, true, h, 100*ms)),
 			odd(pre("rel3", 3, 30*m, all, 2*h, 0)),
 			// close uploads: 10 min is inside the default threshold and well outside the 1 min one
-			pre("way2", 3, m, all, 2*h, 10*m, 0),
+			odd(pre("way2", 3, m, all, 2*h, 10*m, 0)),
 		}
 	}
 	return []*Space{
@@ -344,6 +344,20 @@ func search(r *kit.Run, sp *Space) (states, transitions int64) {
 		st := k.reset(tasks[i].prefix)
 		k.dfs(st, len(tasks[i].prefix), tasks[i].recurse)
 		mu.Lock()
+		if k.truth != nil && k.truth.stats != nil {
+			st := k.truth.stats
+			for name, v := range map[string]int64{
+				"compared/a_child_references": st.refs, "compared/b_update_entries": st.updates, "compared/b_update_entries_in_grouping_window": st.windowUpdates,
+				"compared/c_timetravel_queries": st.travels, "compared/c_timetravel_child_states": st.travelRefs,
+				"compared/d_deleted_parent_versions": st.deletedParents,
+				"compared/e_NoHistoryError":          st.errNoHistory, "compared/e_NoVisibleChildError": st.errNoVisible, "compared/e_deleted_between_error": st.errDeleted,
+				"compared/e_unannotated_missing_child_refs": st.unannotatedMissing, "compared/e_unannotated_inconsistent_child_refs": st.unannotatedInconsistent,
+				"compared/childfilter_untouched_refs": st.filteredUntouched,
+			} {
+				r.Add(name, v)
+			}
+			*st = stats{}
+		}
 		states += k.states
 		transitions += k.transitions + int64(0)
 		calls += k.calls
@@ -551,15 +565,14 @@ func (k *worker) evalVariant(v Variant, times []time.Time) *truth {
 		opts = append(opts, annotate.ChildFilter(func(id osm.FeatureID) bool { return id == accept }))
 	}
 
-	var err error
-	if f.isWay() {
-		err = annotate.Ways(context.Background(), p.ways, ds, opts...)
-	} else {
-		err = annotate.Relations(context.Background(), p.rels, ds, opts...)
-	}
+	err, panicked := callLibrary(f.isWay(), p, ds, opts)
 	k.calls++
 
 	pre := k.sp.keyPrefix() + "/" + v.class() + "/"
+	if panicked != nil {
+		k.violation(v, "panic/"+pre+"annotate", fmt.Sprintf("the library panicked: %v", panicked))
+		return t
+	}
 	if err != nil {
 		if ok, why := t.classifyError(err); !ok {
 			k.violation(v, "error-type/"+pre+errClass(err), why)
@@ -581,6 +594,19 @@ func (k *worker) evalVariant(v Variant, times []time.Time) *truth {
 		k.violation(v, fd.key, fd.what)
 	}
 	return t
+}
+
+// callLibrary runs the code under test; a panic is a finding, not a crash.
+func callLibrary(way bool, p *parents, ds *osm.HistoryDatasource, opts []annotate.Option) (err error, panicked interface{}) {
+	defer func() {
+		if x := recover(); x != nil {
+			panicked = x
+		}
+	}()
+	if way {
+		return annotate.Ways(context.Background(), p.ways, ds, opts...), nil
+	}
+	return annotate.Relations(context.Background(), p.rels, ds, opts...), nil
 }
 
 // reversed returns a datasource whose histories are fresh slices in
